@@ -12,6 +12,7 @@ import (
 	"strings"
 	"sync"
 	"testing"
+	"testing/synctest"
 	"time"
 
 	"github.com/mutagen-io/mutagen/pkg/logging"
@@ -33,7 +34,7 @@ import (
 //   truncate   Manager.List on running sessions with scripted in-memory endpoints
 
 type c40case struct {
-	Leg string // "order", "select", "truncate"
+	Leg string // "order", "select", "truncate", "time"
 	// order
 	Paths []string `json:",omitempty"`
 	// select
@@ -41,6 +42,9 @@ type c40case struct {
 	Query    *c40query    `json:",omitempty"`
 	// truncate: conflicts, alpha scan, beta scan, alpha transition, beta transition
 	Counts []int `json:",omitempty"`
+	// time: creation instants in nanoseconds after the fake-clock epoch, in
+	// creation order (non-decreasing; equal values = created at the same instant)
+	Offsets []int64 `json:",omitempty"`
 }
 
 // ---- leg "order" ----
@@ -260,15 +264,10 @@ func (w *selectWorld) judgeQuery(q c40query) (what, class string) {
 			return fmt.Sprintf("session %s (index %d) is listed but matches nothing", id, w.indexOf(id)), "select-extra"
 		}
 	}
-	// "Listings are ordered by creation time": by the creation times the
-	// listing itself reports...
-	for i := 1; i < len(states); i++ {
-		a, b := states[i-1].Session.CreationTime, states[i].Session.CreationTime
-		if a.Seconds > b.Seconds || (a.Seconds == b.Seconds && a.Nanos > b.Nanos) {
-			return fmt.Sprintf("listing not ordered by creation time at position %d", i), "select-unordered"
-		}
-	}
-	// ...and the listed sessions carry the names and labels they were created with.
+	// The order of the listing is NOT judged here: these sessions are created
+	// on the real clock, which the check does not own. Creation-time order is
+	// decided by the "time" leg, where the clock is a synctest fake clock.
+	// The listed sessions carry the names and labels they were created with.
 	for _, st := range states {
 		s := w.live[w.indexOf(st.Session.Identifier)]
 		if st.Session.Name != s.Name || len(st.Session.Labels) != len(s.Labels) {
@@ -513,6 +512,123 @@ func (w *truncWorld) judgeCounts(counts []int) (what string) {
 	return ""
 }
 
+// ---- leg "time": creation-time order on an owned clock ----
+
+// timeInstants are the creation instants (ns after the fake-clock epoch, which
+// sits on a whole second): they cross second boundaries with decreasing
+// sub-second parts, share a second with different nanoseconds, and repeat.
+var timeInstants = []int64{200e6, 900e6, 1100e6, 1900e6, 2000e6, 2000e6 + 50, 3500e6, 7000e6}
+
+// judgeTimes creates paused sessions at the given instants of a synctest fake
+// clock on a fresh Manager and judges the order of every kind of listing.
+// "Listings are ordered by creation time": a session created at an earlier
+// instant must be listed before one created later; sessions created at the
+// same instant may come in either order.
+func judgeTimes(t *testing.T, logger *logging.Logger, rootA, rootB string, offsets []int64) (what string) {
+	synctest.Test(t, func(t *testing.T) {
+		m, err := synchronization.NewManager(logger)
+		if err != nil {
+			what = "INFRA: unable to create manager: " + err.Error()
+			return
+		}
+		defer m.Shutdown()
+		start := time.Now()
+		alpha := &url.URL{Kind: url.Kind_Synchronization, Protocol: url.Protocol_Local, Path: rootA}
+		beta := &url.URL{Kind: url.Kind_Synchronization, Protocol: url.Protocol_Local, Path: rootB}
+		at := map[string]int64{}
+		var ids, names []string
+		for i, off := range offsets {
+			if d := time.Duration(off) - time.Since(start); d > 0 {
+				time.Sleep(d)
+			}
+			if got := time.Since(start); got != time.Duration(off) {
+				what = fmt.Sprintf("INFRA: fake clock at %v, wanted %v", got, time.Duration(off))
+				return
+			}
+			name := fmt.Sprintf("t%d", i)
+			id, err := m.Create(context.Background(), alpha, beta, &synchronization.Configuration{}, &synchronization.Configuration{}, &synchronization.Configuration{}, name, map[string]string{"k": "a"}, true, "")
+			if err != nil {
+				what = "INFRA: unable to create paused session: " + err.Error()
+				return
+			}
+			at[id] = off
+			ids = append(ids, id)
+			names = append(names, name)
+		}
+		defer m.Terminate(context.Background(), &selection.Selection{All: true}, "")
+		var reversedIDs, scrambled []string
+		for i := len(ids) - 1; i >= 0; i-- {
+			reversedIDs = append(reversedIDs, ids[i])
+		}
+		for i := range ids {
+			if i%2 == 0 {
+				scrambled = append(scrambled, names[len(names)-1-i/2])
+			} else {
+				scrambled = append(scrambled, ids[i/2])
+			}
+		}
+		queries := []struct {
+			label string
+			sel   *selection.Selection
+		}{
+			{"all", &selection.Selection{All: true}},
+			{"identifiers in reverse creation order", &selection.Selection{Specifications: reversedIDs}},
+			{"names and identifiers mixed", &selection.Selection{Specifications: scrambled}},
+			{"label selector", &selection.Selection{LabelSelector: "k=a"}},
+		}
+		for _, q := range queries {
+			_, states, err := m.List(context.Background(), q.sel, 0)
+			if err != nil {
+				what = fmt.Sprintf("INFRA: List (%s) failed: %v", q.label, err)
+				return
+			}
+			if len(states) != len(ids) {
+				what = fmt.Sprintf("List (%s) returns %d of %d sessions", q.label, len(states), len(ids))
+				return
+			}
+			var listed []string
+			for _, st := range states {
+				listed = append(listed, time.Duration(at[st.Session.Identifier]).String())
+			}
+			for i := 1; i < len(states); i++ {
+				if at[states[i-1].Session.Identifier] > at[states[i].Session.Identifier] {
+					what = fmt.Sprintf("sessions created at %v after the epoch are listed (%s) in the order %v", durations(offsets), q.label, listed)
+					return
+				}
+			}
+		}
+	})
+	return what
+}
+
+func durations(ns []int64) []string {
+	var out []string
+	for _, n := range ns {
+		out = append(out, time.Duration(n).String())
+	}
+	return out
+}
+
+// timePatterns returns every non-decreasing sequence of timeInstants of
+// length 2..maxLen.
+func timePatterns(maxLen int) [][]int64 {
+	var out [][]int64
+	var rec func(prefix []int64, from int)
+	rec = func(prefix []int64, from int) {
+		if len(prefix) >= 2 {
+			out = append(out, append([]int64{}, prefix...))
+		}
+		if len(prefix) == maxLen {
+			return
+		}
+		for i := from; i < len(timeInstants); i++ {
+			rec(append(prefix, timeInstants[i]), i)
+		}
+	}
+	rec(nil, 0)
+	return out
+}
+
 // ---- the test ----
 
 func c40sessionConfigs(thorough bool) []c40session {
@@ -587,6 +703,13 @@ func TestC40(t *testing.T) {
 			for len(w.live) > 0 {
 				w.terminateLast()
 			}
+		case "time":
+			what := judgeTimes(t, logger, rootA, rootB, c.Offsets)
+			t.Logf("replay time %v: verdict=%q", durations(c.Offsets), what)
+			r.Case(vr.J(c), true)
+			if what != "" {
+				r.Violate("time "+vr.J(c.Offsets), what, c, nil)
+			}
 		case "truncate":
 			w := &truncWorld{t: t, manager: newManager(), worker: 99}
 			what := w.judgeCounts(c.Counts)
@@ -599,11 +722,11 @@ func TestC40(t *testing.T) {
 		return
 	}
 
-	r.Rule(fmt.Sprintf("order: all paths of depth <= 3 over components %q (incl. the root): fastpath.Less on every ordered pair against the component-wise reference, sort by Less against an actual depth-first traversal, and irreflexivity/asymmetry/transitivity/totality on every triple; select: every creation sequence of <= 3 paused sessions over %d (name, labels) configurations on a real Manager, each judged against every query (All; every specification list of length 1..2 over {n1,n2,unknown name,unknown identifier,identifier of each session}; %d label selectors); truncate: running sessions on scripted in-memory endpoints for every vector of list sizes (conflicts, alpha/beta scan problems, alpha/beta transition problems) in %v^5, paths spread over directories a, a-, a., b. Non-trivial: order pairs of distinct paths; select queries with a non-empty expected selection or an expected failure; truncate vectors with at least one list over 10", orderComponents, len(configs), len(labelSelectors), truncValues))
+	r.Rule(fmt.Sprintf("order: all paths of depth <= 3 over components %q (incl. the root): fastpath.Less on every ordered pair against the component-wise reference, sort by Less against an actual depth-first traversal, and irreflexivity/asymmetry/transitivity/totality on every triple; select: every creation sequence of <= 3 paused sessions over %d (name, labels) configurations on a real Manager, each judged against every query (All; every specification list of length 1..2 over {n1,n2,unknown name,unknown identifier,identifier of each session}; %d label selectors); truncate: running sessions on scripted in-memory endpoints for every vector of list sizes (conflicts, alpha/beta scan problems, alpha/beta transition problems) in %v^5, paths spread over directories a, a-, a., b; time: inside a testing/synctest bubble (fake clock) every non-decreasing sequence of 2..3 (thorough 4) creation instants from {0.2s, 0.9s, 1.1s, 1.9s, 2.0s, 2.0s+50ns, 3.5s, 7.0s} (second boundaries with decreasing sub-second parts, same second with different nanoseconds, equal instants), each listed by All, by identifiers in reverse order, by mixed names/identifiers and by label selector: a session created earlier must be listed earlier, equal instants in either order. Non-trivial: time patterns with at least two different instants; order pairs of distinct paths; select queries with a non-empty expected selection or an expected failure; truncate vectors with at least one list over 10", orderComponents, len(configs), len(labelSelectors), truncValues))
 	r.Assume("label selector semantics are the Kubernetes ones for the 13 enumerated selectors; selector syntax beyond them is not covered",
 		"Selection.EnsureValid (applied by the service before the manager) holds for every enumerated selection; empty specifications are therefore not enumerated",
 		"the scripted endpoints replace the local protocol handler in this process; truncation is judged after the first completed cycle",
-		"creation-time order is judged on the creation times reported in the listing itself")
+		"creation-time order is judged only on the fake clock of the time leg (owned creation instants); listings of sessions created on the real clock are not judged for order")
 
 	// -- leg order --
 	paths := dfsPaths(orderComponents, 3)
@@ -764,7 +887,36 @@ func TestC40(t *testing.T) {
 		(<-managers).Shutdown()
 	}
 
+	// -- leg time -- (serial: every pattern is one synctest bubble with its own
+	// Manager on a data directory of its own)
+	os.Setenv("MUTAGEN_DATA_DIRECTORY", t.TempDir())
+	maxLen := 3
+	if vr.Thorough() {
+		maxLen = 4
+	}
+	patterns := timePatterns(maxLen)
+	for _, offsets := range patterns {
+		offsets := offsets
+		what := judgeTimes(t, logger, rootA, rootB, offsets)
+		if strings.HasPrefix(what, "INFRA:") {
+			t.Fatalf("%s", what)
+		}
+		distinct := false
+		for i := 1; i < len(offsets); i++ {
+			distinct = distinct || offsets[i] != offsets[i-1]
+		}
+		r.Case("time|"+vr.J(offsets), distinct)
+		if what != "" {
+			r.Outcome("time-misordered")
+			r.Violate("time "+vr.J(offsets), what, c40case{Leg: "time", Offsets: offsets}, func() bool { return judgeTimes(t, logger, rootA, rootB, offsets) != "" })
+		} else {
+			r.Outcome(map[bool]string{true: "time-ordered", false: "time-all-equal"}[distinct])
+		}
+	}
+	r.Set("time_patterns_run", len(patterns))
+
 	r.Sample(c40case{Leg: "order", Paths: []string{"a/b", "a-/b"}})
 	r.Sample(c40case{Leg: "select", Sessions: []c40session{{"n1", map[string]string{"k": "a"}}, {"n1", nil}}, Query: &c40query{Specs: []string{"n1", "#1"}}})
 	r.Sample(c40case{Leg: "truncate", Counts: []int{11, 0, 10, 11, 0}})
+	r.Sample(c40case{Leg: "time", Offsets: []int64{900e6, 1100e6, 2000e6 + 50}})
 }
